@@ -210,12 +210,13 @@ def c20(tier):
                                                             ("VerifC20Parse", 2), ("VerifC20Event", 1), ("VerifC20Getters", 3))]
     for w in range(9):
         units.append(U(MACH, "VerifC20When", when=w))
+    for mi in (0, 1):
+        units.append(U(MACH, "VerifC20Misc", misc=mi))
     return {"units": units,
             "bounds": {"lists": "sub-lists of 4 names and lists of length <=3 with duplicates / an unknown name", "time": "Time of length 0..3, 64-bit ticks, "
                        "indexes -1..len-1", "queue": "0..2 queued mutations, every Position", "contexts": "nil and live contexts for every When* method"},
             "outside": ["pkg/helpers wait/ask helpers and pkg/integrations JSON handlers (not encoded in this revision)", "enumeration of entry points by "
-                        "reflection: the list of kernels is static", "DetachHandlers (unbounded self-recursion: cannot be replayed without killing the test "
-                        "process; noted in DESIGN.md)", "Time.Equal(false, shorter) (undocumented precondition; candidate only)"],
+                        "reflection: the list of kernels is static", "Time.Equal(false, shorter) (undocumented precondition; candidate only)"],
             "assumptions": ["documented preconditions only: states exist in the schema, indexes in -1..len-1", "panics are violations (//verif:panics violation)"]}
 
 
